@@ -430,13 +430,7 @@ def r6_timeouts(ctx):
 
 
 def run(ctx):
-    r1_untaken_messages_stay(ctx)
-    r2_verdict_only(ctx)
-    r3_error_propagation(ctx)
-    r4_latest_answer_replaces(ctx)
-    r4b_answers_not_dropped(ctx)
-    r5_priority_order(ctx)
-    r6_timeouts(ctx)
+    ctx.run_rules([r1_untaken_messages_stay, r2_verdict_only, r3_error_propagation, r4_latest_answer_replaces, r4b_answers_not_dropped, r5_priority_order, r6_timeouts])
     return (
         "Decides structural clauses of the select statement: who may remove from a mailbox and under which verdict (with the removed index tied "
         "to the examined/held message), the filter result reaching only the nil test, the awaited process's own error being propagated, "
